@@ -266,6 +266,13 @@ class Actor:
             a = a.parent
         if self.sim.module is not None:
             parents.append(self.sim.hugr.root)
+        # a Const is a scoped definition and may also sit directly under an enclosing CFG node
+        a = self
+        while a is not None:
+            if getattr(a, "cfg", None) is not None and self.sim.features.get("const_under_cfg", True):
+                parents.append(a.cfg.b.parent_node)
+                break
+            a = a.parent
         existing = [c for c in self.sim.consts if c[1] == ty and c[2] in [p.idx if p is not None else self.b.parent_node.idx for p in parents]]
         if existing and ch.coin(1, 3, "reload-const"):
             c = existing[ch.draw(len(existing), "which-const")]
@@ -280,6 +287,8 @@ class Actor:
                 n = self.call("load:value@parent", self.b.load, value, p)
                 pidx = p.idx
                 self.sim.ctx.probe("const_in_outer_scope")
+                if isinstance(self.sim.hugr[p].op, T().ops.CFG):
+                    self.sim.ctx.probe("const_under_cfg")
             # the Const node is the child added just before the LoadConst
             cn = [c for c in self.sim.hugr.children(self.sim.hugr[n].parent if p is None else p)
                   if isinstance(self.sim.hugr[c].op, T().ops.Const)][-1]
@@ -746,6 +755,7 @@ class BuilderSim:
             other = self.gen_row(2)
             out = self.gen_row(2)
             b = Conditional(sum_ty, other)
+            self.root_builder = b
             self.hugr = b.hugr
             root = RootOwner(self, b)
             ctl = CondCtl(self, root, b, sum_ty, other, out)
@@ -756,6 +766,7 @@ class BuilderSim:
         elif rk == "cfg":
             out = self.gen_row(2)
             b = Cfg(*ins)
+            self.root_builder = b
             self.hugr = b.hugr
             root = RootOwner(self, b)
             ctl = CfgCtl(self, root, b, ins, out)
@@ -1247,3 +1258,117 @@ class ModuleCtl:
                 n = self.call("declare_function", m.declare_function, name, sig)
                 sim.funcs.append({"node": n, "name": name, "actor": None, "calls": 0, "poly_kind": kind, "sig": sig,
                                   "callable": lambda: True})
+
+
+# ---------------------------------------------------------------------------------------------
+# Detached builders attached with insert_nested / insert_cfg / insert_conditional / insert_tail_loop
+
+
+def build_detached(ctx, kind):
+    """A completed detached builder (own Hugr) of the given root kind, built by interleaved actors."""
+    ch = ctx.ch
+    feats = {"cond": ch.coin(1, 2, "f-cond"), "loop": ch.coin(1, 3, "f-loop"), "cfg": ch.coin(1, 3, "f-cfg"),
+             "calls": False, "poly": False, "meta": ch.coin(2, 3, "f-meta")}
+    sim = BuilderSim(ctx, root_kind=kind, features=feats, max_steps=5 + ch.draw(25, "max-steps"))
+    sim.run()
+    return sim
+
+
+def derive_mapping(src_h, dst_h, dst_root):
+    """Node correspondence of an insertion derived from the two ordered hierarchies."""
+    mp = {src_h.root.idx: dst_root.idx}
+    stack = [(src_h.root, dst_root)]
+    while stack:
+        a, b = stack.pop()
+        ca, cb = src_h.children(a), dst_h.children(b)
+        if len(ca) != len(cb):
+            return None
+        for x, y in zip(ca, cb):
+            mp[x.idx] = y.idx
+            stack.append((x, y))
+    return mp
+
+
+def run_insert_leg(ctx, probe_handle=None):
+    """C08 builder leg (also feeds C16): insert a detached builder into a host dataflow builder."""
+    from hugr.build.dfg import Dfg
+
+    from ..oracles import iso
+
+    ch = ctx.ch
+    t = T()
+    kind = ch.pick(["dfg", "cfg", "conditional", "tailloop"], "detached-kind")
+    try:
+        sub = build_detached(ctx, kind)
+    except Discard as d:
+        ctx.discard = str(d)
+        return
+    ctx.profile = {"leg": "builder-insert", "kind": kind}
+    sb = sub.root_actor.b if sub.root_actor is not None else None
+    op = sub.hugr[sub.hugr.root].op
+    sig = op.outer_signature()
+    in_tys = list(sig.input)
+    n_out = len(sig.output)
+    # host: a Dfg with some history (extra ops, a hole in the index space) and the needed input wires
+    extra = [t.B, t.Q][:ch.draw(3, "host-extra")]
+    host = Dfg(*in_tys, *extra)
+    ctx.ev("host", "Dfg", [repr(x) for x in [*in_tys, *extra]])
+    if ch.coin(1, 2, "host-hole"):
+        n1 = host.hugr.add_node(t.ops.Noop(t.B), host.parent_node)
+        host.hugr.add_node(t.ops.Noop(t.B), host.parent_node)
+        host.hugr.delete_node(n1)
+        ctx.ev("host", "add/add/delete (hole)")
+        ctx.probe("insert_into_freed_indices")
+    wires = list(host.inputs()[:len(in_tys)])
+    if ch.coin(1, 2, "host-preop"):
+        # route one copyable input through a Noop first so that the wire does not come from Input
+        for i, ty in enumerate(in_tys):
+            if not is_linear(ty):
+                wires[i] = host.add_op(t.ops.Noop(), wires[i]).out(0)
+                break
+    a_before = iso.observe(host.hugr)
+    b_before = iso.observe(sub.hugr)
+    ctx.steps += 1
+    try:
+        if kind == "dfg":
+            node = host.insert_nested(sb, *wires)
+        elif kind == "tailloop":
+            nji = len(op.just_inputs)
+            node = host.insert_tail_loop(sb, wires[:nji], wires[nji:])
+        elif kind == "cfg":
+            node = host.insert_cfg(sub.root_builder, *wires)
+        else:
+            node = host.insert_conditional(sub.root_builder, wires[0], *wires[1:])
+    except Exception as e:  # noqa: BLE001
+        ctx.ev("host", f"insert_{kind}", None, f"raised {type(e).__name__}: {str(e)[:100]}")
+        ctx.violate("insert", f"raised:{type(e).__name__}:insert_{kind}", str(e)[:200])
+        return
+    ctx.ev("host", f"insert_{kind}", [f"w{w.out_port().node.idx}.{w.out_port().offset}" for w in wires], f"n{node.idx}")
+    a_after, b_after = iso.observe(host.hugr), iso.observe(sub.hugr)
+    mp = derive_mapping(sub.hugr, host.hugr, node)
+    if mp is None:
+        ctx.violate("iso", f"hierarchy-shape:insert_{kind}", {})
+        return
+    how = f"insert_{kind}"
+    # the given wires are attached at inputs 0..k-1: remove them from the 'after' view before the generic oracle
+    ctx.checked("wires-attached")
+    expected = [(w.out_port().node.idx, w.out_port().offset, node.idx, i) for i, w in enumerate(wires)]
+    links = a_after["links"].copy()
+    for l in expected:
+        if links[l] < 1:
+            ctx.violate("root-placement", f"wire-not-attached:{how}", {"link": list(l)})
+        else:
+            links[l] -= 1
+            if links[l] == 0:
+                del links[l]
+    a_after_wo = dict(a_after, links=links)
+    iso.check_insert(ctx, a_before, b_before, a_after_wo, b_after, mp, host.parent_node.idx, how=how)
+    if sorted(mp.values()) != [mp[k] for k in sorted(mp)]:
+        ctx.probe("non_monotone_mapping")
+    if any(n["metadata"] for n in b_before["nodes"].values()):
+        ctx.probe("inserted_nodes_with_metadata")
+    if any(l[1] == -1 for l in b_before["links"]):
+        ctx.probe("inserted_order_links")
+    ctx.probe("builder_insert:" + kind)
+    if probe_handle is not None:
+        probe_handle(ctx, node, n_out, how, False)
